@@ -80,6 +80,18 @@ func (r *rng) randomState(id string) *Vec {
 	if r.chance(5) {
 		v.W[11] = v.W[12] + uint16(r.n(6))
 	}
+	// aliased pointers: two of BC DE HL IX IY SP equal, or one apart
+	if r.chance(12) {
+		ptr := []int{1, 2, 3, 9, 10, 11}
+		i, j := ptr[r.n(6)], ptr[r.n(6)]
+		if i != j {
+			v.W[j] = v.W[i] + uint16(r.n(3)) - 1
+		}
+	}
+	// byte-boundary counters: BC = xx00 / 0001 / 0100, B = 0 / 1
+	if r.chance(10) {
+		v.W[1] = []uint16{0x0000, 0x0001, 0x0002, 0x0100, 0x0101, 0x0200, 0xff00, 0x00ff, 0x0201}[r.n(9)]
+	}
 	v.IFF1, v.IFF2 = r.chance(50), r.chance(50)
 	v.HALT = r.chance(10)
 	v.IM = r.n(3)
@@ -171,6 +183,10 @@ func cmdGen(args []string) {
 		}
 	case "intr":
 		genIntr(r, out, *n)
+	case "run":
+		genRun(r, out, *n)
+	case "memio":
+		genMemio(r, out, *n)
 	default:
 		fmt.Fprintln(os.Stderr, "unknown gen kind", kind)
 		os.Exit(2)
@@ -228,5 +244,90 @@ func genIntr(r *rng, out *bufio.Writer, n int) {
 				}
 			}
 		}
+	}
+}
+
+// safeInstr: one instruction that touches registers only (no memory write, no control transfer, no I/O)
+func (r *rng) safeInstr() []uint8 {
+	regs := []uint8{0, 1, 2, 3, 4, 5, 7} // B C D E H L A
+	switch r.n(14) {
+	case 0:
+		return []uint8{0x00}
+	case 1:
+		return []uint8{0x40 | regs[r.n(7)]<<3 | regs[r.n(7)]}
+	case 2:
+		return []uint8{0x80 | uint8(r.n(8))<<3 | regs[r.n(7)]}
+	case 3:
+		return []uint8{0x04 | regs[r.n(7)]<<3 | uint8(r.n(2))}
+	case 4:
+		return []uint8{0x03 | uint8(r.n(8))<<3}
+	case 5:
+		return []uint8{[]uint8{0x07, 0x0f, 0x17, 0x1f, 0x27, 0x2f, 0x37, 0x3f, 0x08, 0xd9, 0xeb}[r.n(11)]}
+	case 6:
+		return []uint8{0x09 | uint8(r.n(4))<<4}
+	case 7:
+		return []uint8{0x06 | regs[r.n(7)]<<3, r.b8()}
+	case 8:
+		return []uint8{0xc6 | uint8(r.n(8))<<3, r.b8()}
+	case 9:
+		return []uint8{0xcb, uint8(r.n(32))<<3 | regs[r.n(7)]}
+	case 10:
+		return []uint8{0x01 | uint8(r.n(4))<<4, r.u8(), r.u8()}
+	case 11:
+		return []uint8{[]uint8{0xdd, 0xfd}[r.n(2)], []uint8{0x24, 0x25, 0x2c, 0x2d, 0x23, 0x2b, 0x09, 0x19, 0x29, 0x39, 0x44, 0x65, 0x7c, 0x84, 0x95}[r.n(15)]}
+	case 12:
+		return []uint8{0xed, []uint8{0x44, 0x4a, 0x52, 0x5a, 0x62, 0x6a, 0x72, 0x7a, 0x57, 0x5f, 0x47, 0x4f, 0x46, 0x56, 0x5e}[r.n(15)]}
+	default:
+		return []uint8{[]uint8{0xf3, 0xfb}[r.n(2)]}
+	}
+}
+
+// genRun: terminating register-only programs ending in HALT x breakpoint sets x repeated Run calls
+func genRun(r *rng, out *bufio.Writer, n int) {
+	for i := 0; i < n; i++ {
+		v := r.randomState(fmt.Sprintf("run-%d", i))
+		v.Kind = "run"
+		v.N = 1 + r.n(3)
+		v.Intr = nil
+		var prog []uint8
+		var starts []uint16
+		k := r.n(13)
+		if r.chance(10) {
+			k = 0 // HALT is the first instruction
+		}
+		for j := 0; j < k; j++ {
+			starts = append(starts, v.W[12]+uint16(len(prog)))
+			prog = append(prog, r.safeInstr()...)
+		}
+		haltAt := v.W[12] + uint16(len(prog))
+		prog = append(prog, 0x76)
+		v.Over = []Override{{v.W[12], prog}}
+		switch r.n(8) {
+		case 0:
+			v.BP = "nil"
+		case 1:
+			v.BP = "-"
+		case 2:
+			v.BP = fmt.Sprintf("%04x", v.W[12]) // the start PC
+		case 3:
+			v.BP = fmt.Sprintf("%04x", haltAt) // the HALT address
+		case 4:
+			v.BP = fmt.Sprintf("%04x", haltAt+1)
+		case 5:
+			// inside a multi-byte instruction (never reached as a PC) and one real boundary
+			a := v.W[12] + uint16(r.n(len(prog)))
+			v.BP = fmt.Sprintf("%04x", a)
+		default:
+			var l []string
+			for j := r.n(4) + 1; j > 0; j-- {
+				if len(starts) > 0 && r.chance(70) {
+					l = append(l, fmt.Sprintf("%04x", starts[r.n(len(starts))]))
+				} else {
+					l = append(l, fmt.Sprintf("%04x", r.w16()))
+				}
+			}
+			v.BP = strings.Join(l, ",")
+		}
+		fmt.Fprintln(out, v.String())
 	}
 }
